@@ -173,7 +173,7 @@ def match_known(known, prop, shard_name, cex):
         for k in known:
             if k.get('status') != 'open' or k['property'] != prop:
                 continue
-            if cl not in k['clauses']:
+            if not any(re.fullmatch(pat, cl) for pat in k['clauses']):
                 continue
             if not re.fullmatch(k.get('shard', '.*'), shard_name):
                 continue
@@ -213,7 +213,11 @@ def run_property(prop_id, tier, seed, jobs=None, only=None, verbose=False):
     results.sort(key=lambda r: r['name'])
     known = load_known()
     violations, known_hits, harness_errors, inconclusive = [], [], [], []
-    os.makedirs(os.path.join(ROOT, 'replays', prop_id), exist_ok=True)
+    rdir = os.path.join(ROOT, 'replays', prop_id)
+    os.makedirs(rdir, exist_ok=True)
+    for old_file in os.listdir(rdir):
+        if old_file.endswith('.json'):
+            os.unlink(os.path.join(rdir, old_file))
     nrep = 0
     funcs = {}
     for r in results:
